@@ -299,8 +299,8 @@ impl Check for C10 {
             }
         }));
         let n = match tier {
-            Tier::Quick => 20_000,
-            Tier::Thorough => 600_000,
+            Tier::Quick => 100_000,
+            Tier::Thorough => 2_400_000,
         };
         fams.push(Family::new("random_stalls_and_noise", n, false, |_, rng| random_stall_plan(rng)));
         fams
